@@ -2,4 +2,7 @@ package main
 
 import "verifharness/x/apifuzz"
 
-func init() { register("api-fuzz", apifuzz.Run) }
+func init() {
+	register("api-fuzz", apifuzz.Run)
+	register("api-fuzz-child", apifuzz.RunChild) // hidden: one range of iterations in a child process
+}
